@@ -433,7 +433,15 @@ class MemNet:
             return
         self.installed = (socketutil.create_socket, svr_threads.selectors, svr_multiplex.selectors)
         self._real_select = socketutil.select
-        socketutil.select = SelectModuleShim()
+        shim_sel = SelectModuleShim()
+        socketutil.select = shim_sel
+        # any other library module that imports 'select' for itself gets the in-memory one too
+        self._other_select = []
+        import sys
+        for name, mod in list(sys.modules.items()):
+            if name.startswith("Pyro5.") and mod is not socketutil and getattr(mod, "select", None) is _real_select_module:
+                self._other_select.append(mod)
+                mod.select = shim_sel
         socketutil.create_socket = self.create_socket
         shim = SelectorsShim()
         svr_threads.selectors = shim
@@ -444,6 +452,9 @@ class MemNet:
         if self.installed:
             socketutil.create_socket, svr_threads.selectors, svr_multiplex.selectors = self.installed
             socketutil.select = self._real_select
+            for mod in getattr(self, "_other_select", ()):
+                mod.select = _real_select_module
+            self._other_select = []
             self.installed = None
         if self.server_thread is not None:
             self.server_thread.stop()
